@@ -553,6 +553,23 @@ Proof.
     intros o c. specialize (R1 o c). cbn [gsum] in R1. destruct rm; lia.
 Qed.
 
+(* a removal of graphs that are all (completely) there succeeds *)
+Lemma apply_loop_rm_succeeds h k x : forall gs H applied, posH H ->
+  (forall g, In g gs -> snd (plan h k false g x) = false) ->
+  (forall o c, gsum h k gs x o c <= cntH H o c) ->
+  exists H', apply_loop h k true gs x H applied = (H', None).
+Proof.
+  induction gs as [|g gs IH]; intros H applied P F C; cbn [apply_loop]; [eauto|].
+  assert (snd (plan h k false g x) = false) as Fg by (apply F; left; reflexivity).
+  destruct (walk_outer_rm_succeeds h k g x H P) as [H1 W].
+  { rewrite plan_rm_flag. exact Fg. }
+  { intros o c. rewrite (plan_rm_cnt _ _ _ _ _ _ Fg). specialize (C o c). cbn [gsum] in C. lia. }
+  rewrite W. destruct (walk_outer_spec _ _ _ _ _ _ _ _ P W) as [P1 [_ S1]].
+  apply (IH H1 (g :: applied) P1); [intros; apply F; right; assumption|].
+  intros o c. specialize (C o c). specialize (S1 o c). cbn beta iota in S1.
+  rewrite (plan_rm_cnt _ _ _ _ _ _ Fg) in S1. cbn [gsum] in C. lia.
+Qed.
+
 (* ------------------------------------------------------------------ histories *)
 Definition rsig := (oid * nat * nat * list graph)%type.
 Definition sig_cnt (h : heap) (s : rsig) (o : obsv) (c : ckey) : nat :=
